@@ -676,6 +676,7 @@ async fn session(tier: Tier, seed: u64, case: u64, dir: std::path::PathBuf) -> A
         history.push(json!({"kind": "frame-payload", "how": how, "len": bytes.len()}));
         after_input!("frame-payload", json!({"how": how, "bytes": b64(&bytes)}), pb);
     }
+    acc.sample(json!({"model": model, "inputs": history.len(), "last_inputs": history.iter().rev().take(4).collect::<Vec<_>>()}));
     // (f) + (g): full Discret for invitation bytes and malformed identity answers, one case in three
     if case % 3 == 0 {
         let cfg = Configuration { parallelism: 2, enable_multicast: false, enable_beacons: false, ..Default::default() };
